@@ -7,6 +7,11 @@ package main
 //                       default clause (the hand-off channel is drained before the flush)
 //   leaderKeepsUnsent   leaderLoop: the event taken from s.fifo.C is stored in s.unsent and the
 //                       retry loop's stop branch returns without clearing it
+//   flateDecompressStmts  internal/rarchive/flate.Decompress: its statements, verbatim (the model
+//                       assumes Decompress inverts Compress for inputs of ANY size: no limit
+//                       reader, no size error)
+//   flateCompressStmts  the same for Compress
+//   leaderDecodeFailure what the leader loop does when flate.Decompress fails (the model's DROP)
 
 import (
 	"go/ast"
@@ -62,8 +67,58 @@ func init() {
 			src := x.Src(fd.Body)
 			keeps := strings.Contains(src, "s.unsent = ev") && strings.Contains(src, "ev := s.unsent")
 			x.DefOptBool("leaderKeepsUnsent", keeps, true)
+			// the statements executed when Decompress fails
+			var onFail []string
+			ast.Inspect(fd.Body, func(n ast.Node) bool {
+				bl, ok := n.(*ast.BlockStmt)
+				if !ok {
+					return true
+				}
+				for i, st := range bl.List {
+					as, ok := st.(*ast.AssignStmt)
+					if !ok || !strings.Contains(x.Src(as), "flate.Decompress(ev.Data)") || i+1 >= len(bl.List) {
+						continue
+					}
+					if is, ok := bl.List[i+1].(*ast.IfStmt); ok && x.Src(is.Cond) == "err != nil" {
+						for _, b := range is.Body.List {
+							t := x.Src(b)
+							if strings.HasPrefix(t, "s.logger.") || strings.HasPrefix(t, "stats.") {
+								continue
+							}
+							onFail = append(onFail, t)
+						}
+					}
+				}
+				return true
+			})
+			x.DefStrings("leaderDecodeFailure", onFail)
 		} else {
 			x.DefOptBool("leaderKeepsUnsent", false, false)
+			x.DefStrings("leaderDecodeFailure", nil)
 		}
+
+		x.Comment("internal/rarchive/flate: Compress / Decompress, statement by statement")
+		for _, fn := range []struct{ name, def string }{{"Compress", "flateCompressStmts"}, {"Decompress", "flateDecompressStmts"}} {
+			var stmts []string
+			if fd := x.Func("internal/rarchive/flate", "", fn.name); fd != nil && fd.Body != nil {
+				for _, st := range fd.Body.List {
+					stmts = append(stmts, x.Src(st))
+				}
+			}
+			x.DefStrings(fn.def, stmts)
+		}
+		x.Comment("cdc/service.go: the import path behind the identifier `flate`")
+		imp := ""
+		for name, f := range x.Pkg("cdc") {
+			if !strings.HasSuffix(name, "service.go") {
+				continue
+			}
+			for _, is := range f.Imports {
+				if strings.HasSuffix(is.Path.Value, "/flate\"") {
+					imp = strings.Trim(is.Path.Value, "\"")
+				}
+			}
+		}
+		x.DefString("cdcFlateImport", imp)
 	})
 }
